@@ -1,30 +1,38 @@
 #!/usr/bin/env python3
-"""Runs every confirmed seeded change against every claimed property's check (on scratch copies)
-and records which properties report it in seeded/<id>/meta.json (detected_by)."""
-import json, subprocess, sys, glob, os, concurrent.futures
+"""Applies every confirmed seeded change (and every listed mutant) to a scratch copy of /repo, runs ALL
+registered properties' checks on the copy in one process, and records which properties report
+it: seeded/<id>/meta.json (detected_by, detecting_rules). Usage: seedmatrix.py [names...]"""
+import json, subprocess, sys, glob, os, tempfile, shutil, re, concurrent.futures
 os.chdir('/verif')
-claimed=[c['property_id'] for c in json.load(open('MANIFEST.json'))['checks']]
-only=sys.argv[1:]  # optional: seeded dir names
-seeds=sorted(glob.glob('seeded/*/meta.json'))
-jobs=[]
-for mf in seeds:
-    d=os.path.dirname(mf)
-    if only and os.path.basename(d) not in only: continue
-    for p in claimed: jobs.append((d,p))
-def run(job):
-    d,p=job
-    r=subprocess.run(['tools/mutant.sh',p,d+'/patch.diff'],capture_output=True,text=True)
-    rules=sorted(set(l.split('rule=')[1].split(' ')[0] for l in r.stdout.splitlines() if l.startswith('VIOLATION') and 'rule=' in l))
-    return d,p,r.returncode==0,rules,('PATCH-FAILED' in r.stdout)
-res={}
-with concurrent.futures.ThreadPoolExecutor(max_workers=6) as ex:
-    for d,p,det,rules,pf in ex.map(run,jobs):
-        res.setdefault(d,{})[p]=(det,rules,pf)
-for d,r in sorted(res.items()):
-    meta=json.load(open(d+'/meta.json'))
-    det=sorted(p for p,(x,_,_) in r.items() if x)
-    meta['detected_by']=det
-    meta['detecting_rules']={p:rl for p,(x,rl,_) in r.items() if x}
-    if any(pf for (_,_,pf) in r.values()): meta['patch_applies']=False
-    json.dump(meta,open(d+'/meta.json','w'),indent=1)
-    print(os.path.basename(d), 'detected by', det or '-', {p:rl for p,(x,rl,_) in r.items() if x})
+claimed=set(c['property_id'] for c in json.load(open('MANIFEST.json'))['checks'])
+only=sys.argv[1:]
+env=dict(os.environ)
+def run(d):
+    tmp=tempfile.mkdtemp(prefix='tmsa-mut-')
+    try:
+        subprocess.run(['rsync','-a','--exclude','.git','/repo/',tmp+'/repo/'],check=True)
+        os.makedirs(tmp+'/verif'); shutil.copy('known_findings.json',tmp+'/verif/')
+        p=subprocess.run(['patch','-p1','-s','--no-backup-if-mismatch'],stdin=open(d+'/patch.diff'),cwd=tmp+'/repo',capture_output=True,text=True)
+        if p.returncode!=0: return d,None,{}
+        r=subprocess.run(['bash','-c','. tmsa/env.sh; bin/tmsa check -p ALL -tier quick -repo %s/repo -verif %s/verif'%(tmp,tmp)],capture_output=True,text=True)
+        det={}
+        for l in r.stdout.splitlines():
+            m=re.match(r'VIOLATION property=(\S+) .*? rule=(\S+) ',l)
+            if m: det.setdefault(m.group(1),set()).add(m.group(2))
+        return d,True,{k:sorted(v) for k,v in det.items()}
+    finally:
+        shutil.rmtree(tmp,ignore_errors=True)
+seeds=[os.path.dirname(m) for m in sorted(glob.glob('seeded/*/meta.json'))]
+if only: seeds=[s for s in seeds if os.path.basename(s) in only]
+with concurrent.futures.ThreadPoolExecutor(max_workers=5) as ex:
+    for d,applied,det in ex.map(run,seeds):
+        meta=json.load(open(d+'/meta.json'))
+        if applied is None:
+            meta['patch_applies']=False
+            print(os.path.basename(d),'PATCH DOES NOT APPLY to the current tree (see mutants/ for a port)')
+        else:
+            meta['patch_applies']=True
+            meta['detected_by']=sorted(p for p in det if p in claimed)
+            meta['detecting_rules']={p:r for p,r in det.items() if p in claimed}
+            print(os.path.basename(d),'->',meta['detecting_rules'] or 'MISSED')
+        json.dump(meta,open(d+'/meta.json','w'),indent=1)
